@@ -20,6 +20,7 @@ EXPLANATION = (
     "upper one is, and otherwise the pair (lb.value, 1.0 - ub.value) - lower bound first; the convergence test compares ub.value + lb.value with 1; "
     "KB6 the partial CNF encoding the borders hand to the solver (CNF._contents with smart_constraints): the indicator of a constraint is implied by every decided atom of "
     "the constraint, certainly true as well as not possibly true, and means 'enforce the constraint'."
+    " Added after seed round 6: KB6 also folds the allocation of the indicator variable: with 7 variables in use it is the fresh variable 8."
 )
 TECHNIQUE = "static analysis: decision table of KBestEvaluator.evaluate's exits, literal/weight sign pairing and polarity pairing patterns"
 LEVEL_TEXT = EXPLANATION
